@@ -245,7 +245,7 @@ def other_configurations(ctx, only=None):
         c20.reset_caches()
         try:
             sub = c20.SubCtx(ctx, label, ctx.pid, known, floors)
-            mod.run(sub)
+            (getattr(mod, 'run_config', None) or mod.run)(sub)
         finally:
             load.ALIAS = {}
             c20.reset_caches()
@@ -287,6 +287,9 @@ def main(argv):
             # the float accessors have a different shape without `half` (no 0xf9 arms): the quick tier covers that build too
             expl += ' The same rules are also run on the build without the `half` feature.'
             other_configurations(ctx, only=('core-none',))
+        if ctx.tier == 'quick' and ctx.pid == 'C07':
+            expl += ' The built-in impls are also measured on a 32-bit build (CborLen for usize / isize goes through u32 / i32 there).'
+            other_configurations(ctx, only=('core-alloc-t32',))
         if ctx.tier == 'quick' and ctx.pid == 'C05':
             # usize / isize have their own impls on 32-bit targets (d.u32() / d.i32()): the width rules are run on that build too
             expl += ' The same rules are also run on a 32-bit build (target_pointer_width = "32", thumbv7m-none-eabi, core/alloc from rust-src).'
